@@ -587,7 +587,12 @@ int32_t tls13ParseServerSupportedVersions(ssl_t *ssl,
 
     if (!psParseOctet(pb, &maj) || !psParseOctet(pb, &min))
     {
-        return PS_PARSE_FAIL;
+        /* Without an alert the decoder would take the negative return
+           value for "a response must be encoded", send nothing and leave
+           the session alive. */
+        psTraceErrr("Malformed supported_versions in ServerHello\n");
+        ssl->err = SSL_ALERT_DECODE_ERROR;
+        return MATRIXSSL_ERROR;
     }
     ver = psVerFromEncodingMajMin(maj, min);
 
